@@ -1,5 +1,9 @@
 //! Private module for selective re-export.
 
+#[cfg(all(getong_stateright_verif, not(test)))]
+use crate::verif_hooks::std_shim as std;
+#[cfg(all(getong_stateright_verif, not(test)))]
+use crate::verif_hooks::dashmap_shim as dashmap;
 use crate::checker::{Checker, EventuallyBits, Expectation, Path};
 use crate::job_market::JobBroker;
 use crate::{fingerprint, CheckerBuilder, CheckerVisitor, Fingerprint, Model, Property};
@@ -190,6 +194,8 @@ where
         global_max_depth: &AtomicUsize,
     ) {
         let properties = model.properties();
+        #[cfg(getong_stateright_verif)]
+        let mut max_count = crate::verif_hooks::block_size(max_count);
 
         let mut current_max_depth = global_max_depth.load(Ordering::Relaxed);
         let mut actions = Vec::new();
